@@ -103,6 +103,16 @@ def run_save(case, plan=None, log=None, hooks=None, fs=None):
     return r
 
 
+def fs_after_prior(prior):
+    """File system left behind by an earlier save that died at event prior['crash_at']
+    (process-death view, settled).  None if that save did not reach the crash point."""
+    r = run_save(prior['case'], simfs.Plan(crash_at=prior['crash_at']), None)
+    if not r.crashed:
+        return None
+    r.fs.settle()
+    return r.fs
+
+
 # -- workload generation shared by C04 and C05 ---------------------------------------
 
 TEXT_ALPHA = 'ab\né—\U0001F600 xyz'
@@ -167,3 +177,110 @@ def gen_workload(rng, faults=False):
         if rng.random() < 0.25:
             case['part_initial'] = {'data': b'stale part'.hex(), 'mode': 0o600}
     return case
+
+
+# -- stub fidelity: the same fault-free save on the real kernel -------------------------------
+
+class _RecPath:
+    def __init__(self, rec):
+        self._rec = rec
+
+    def lexists(self, p):
+        self._rec.calls.append('lexists')
+        import os
+        return os.path.lexists(p)
+
+    def __getattr__(self, name):
+        import os
+        return getattr(os.path, name)
+
+
+class _RecOS:
+    """The real os module with the names of the simulated calls recorded."""
+    _RECORD = ('stat', 'open', 'fdopen', 'chmod', 'fsync', 'rename', 'link', 'unlink')
+
+    def __init__(self):
+        self.calls = []
+        self.path = _RecPath(self)
+
+    def __getattr__(self, name):
+        import os
+        val = getattr(os, name)
+        if name in self._RECORD:
+            def wrapped(*a, **k):
+                self.calls.append(name)
+                return val(*a, **k)
+            return wrapped
+        return val
+
+
+def run_real(case):
+    """Execute the (fault-free) workload against the real os in a fresh temp directory.
+    -> dict(listing, dest bytes, dest mode, os-level call names, exception type)"""
+    import os
+    import shutil
+    import stat
+    import tempfile
+    import fcntl as real_fcntl
+    d = tempfile.mkdtemp(prefix='simfs-fidelity-')
+    old_umask = os.umask(case.get('umask', 0o022))
+    old_cwd = os.getcwd()
+    try:
+        dest_name = case.get('dest_name', 'dest.txt')
+        dest_abs = os.path.join(d, dest_name)
+        part_abs = os.path.join(d, case['part_file']) if case.get('part_file') else dest_abs + '.part'
+        for spec, path in ((case.get('dest_initial'), dest_abs), (case.get('part_initial'), part_abs)):
+            if spec is not None:
+                with open(path, 'wb') as fh:
+                    fh.write(bytes.fromhex(spec['data']))
+                os.chmod(path, spec['mode'])
+        os.chdir(d)
+        rec = _RecOS()
+        fu.os = rec
+        fu.fcntl = real_fcntl
+        if 'open' in fu.__dict__:
+            del fu.__dict__['open']
+        exc = None
+        try:
+            with fu.atomic_save(dest_name if case.get('dest_rel') else dest_abs, **kwargs_of(case)) as f:
+                for step in case['body']:
+                    if step[0] == 'write':
+                        f.write(step[1] if case.get('text_mode') else bytes.fromhex(step[1]))
+                    elif step[0] == 'flush':
+                        f.flush()
+                    elif step[0] == 'raise':
+                        raise BodyError('body failed')
+        except BaseException as e:
+            exc = e
+        out = {'listing': sorted(os.listdir(d)), 'exc': type(exc).__name__ if exc else None, 'calls': rec.calls}
+        if os.path.exists(dest_abs):
+            with open(dest_abs, 'rb') as fh:
+                out['dest'] = fh.read()
+            out['mode'] = stat.S_IMODE(os.stat(dest_abs).st_mode)
+        else:
+            out['dest'], out['mode'] = None, None
+        return out
+    finally:
+        os.chdir(old_cwd)
+        os.umask(old_umask)
+        shutil.rmtree(d, ignore_errors=True)
+
+
+def run_sim_summary(case):
+    r = run_save(case, simfs.Plan(), None)
+    _a, dest_abs, _p = paths(case)
+    names = ('stat', 'open', 'fdopen', 'chmod', 'fsync', 'rename', 'link', 'unlink', 'lexists')
+    return {'listing': sorted(p.rsplit('/', 1)[1] for p in r.fs.listing()),
+            'exc': type(r.exc).__name__ if r.exc else None,
+            'calls': [k for k, _d in r.sim.trace if k in names],
+            'dest': r.fs.read_path(dest_abs), 'mode': r.fs.mode_of(dest_abs)}
+
+
+def fidelity_diff(case):
+    """None if the simulated and the real execution agree, else a description."""
+    real = run_real(case)
+    sim = run_sim_summary(case)
+    for k in ('listing', 'exc', 'dest', 'mode', 'calls'):
+        if real[k] != sim[k]:
+            return '%s differs: real %r, simfs %r' % (k, real[k], sim[k])
+    return None
